@@ -147,6 +147,10 @@ def c16 (fn : String) (r : Req) : Option (String × String) :=
     let o := intoOptI64 x
     some (s!"{showSn (timeAsCr x)};{showOptInt o};{b01 (isNat x)};{showRaw (fromOptI64 o)}",
           s!"{showSn (Spec.timeOfDay ox)};{showOptInt ox};{b01 ox.isNone};{showOptInt ox}")
+  | "c16_from_none" =>
+    -- a missing number is NaT in every time type: 8 number types x (DateTime, TimeDelta, Time)
+    let all := String.ofList (List.replicate 24 '1')
+    some (all, all)
   | "c16_cr_range" =>
     some (s!"{crMinNs};{crMaxNs};{showFields crMinNs};{showFields crMaxNs}",
           s!"{Spec.calMinNs};{Spec.calMaxNs};{showFields Spec.calMinNs};{showFields Spec.calMaxNs}")
